@@ -211,3 +211,88 @@ class GradientIndicator(E2Contract):
             ind[pos[0]] = 1
             cl.append(eq(f"indicator[{k}]", g, ind, "calc_gradient(k) is the indicator of the entry holding var[k]"))
         return cl
+
+
+class SetQOperationsIndexing(E2Contract):
+    """global variable vector of an operation set: block order, index maps in both directions, rebuild"""
+    name = "SetQOperations"
+    prop = "C03"
+    targets = ("quara.objects.qoperations:SetQOperations.var_total", "quara.objects.qoperations:SetQOperations.size_var_total",
+               "quara.objects.qoperations:SetQOperations.index_var_total_from_local_info",
+               "quara.objects.qoperations:SetQOperations.local_info_from_index_var_total",
+               "quara.objects.qoperations:SetQOperations._get_operation_item_var_first_index",
+               "quara.objects.qoperations:SetQOperations._get_mode_from_index_var_total",
+               "quara.objects.qoperations:SetQOperations._get_operation_mode_to_total_index_map",
+               "quara.objects.qoperations:SetQOperations.set_qoperations_from_var_total")
+    n_conformance = 1
+    frame = False
+
+    MIXES = {
+        "one-each": dict(state=[(0, True)], gate=[(0, True)], povm=[(2, True)], mprocess=[(2, True)]),
+        "three-povms": dict(state=[(0, False)], gate=[], povm=[(2, True), (3, True), (4, False)], mprocess=[]),
+        "two-each-mixed-flags": dict(state=[(0, True), (0, False)], gate=[(0, False), (0, True)], povm=[(3, True), (2, False)],
+                                     mprocess=[(2, True), (3, False)]),
+        "three-mprocesses": dict(state=[], gate=[(0, True)], povm=[], mprocess=[(3, True), (2, True), (2, False)]),
+        "states-only": dict(state=[(0, True), (0, True), (0, False)], gate=[], povm=[], mprocess=[]),
+    }
+
+    def configs(self, tier):
+        return list(self.MIXES) if tier == "thorough" else ["one-each", "three-povms", "two-each-mixed-flags", "three-mprocesses"]
+
+    def inputs(self, W, cfg, mk):
+        from ._cfg import obj_state, obj_povm, obj_gate, obj_mprocess
+        c_sys = make_csys(W, "1q")
+        mix = self.MIXES[cfg]
+        objs = dict(state=[], gate=[], povm=[], mprocess=[])
+        for i, (m, flag) in enumerate(mix["state"]):
+            objs["state"].append(obj_state(W, mk, c_sys, f"s{i}_", flag))
+        for i, (m, flag) in enumerate(mix["gate"]):
+            objs["gate"].append(obj_gate(W, mk, c_sys, f"g{i}_", flag))
+        for i, (m, flag) in enumerate(mix["povm"]):
+            objs["povm"].append(obj_povm(W, mk, c_sys, m, f"p{i}_", flag))
+        for i, (m, flag) in enumerate(mix["mprocess"]):
+            objs["mprocess"].append(obj_mprocess(W, mk, c_sys, m, f"m{i}_", flag))
+        return dict(objs=objs)
+
+    def run(self, W, cfg, inp):
+        o = inp["objs"]
+        sq = W.mod("quara.objects.qoperations").SetQOperations(states=o["state"], gates=o["gate"], povms=o["povm"], mprocesses=o["mprocess"])
+        vt = sq.var_total()
+        n = sq.size_var_total()
+        infos = [sq.local_info_from_index_var_total(k) for k in range(n)]
+        back = [sq.index_var_total_from_local_info(i["mode"], i["index_operations"], i["index_var_local"]) for i in infos]
+        rebuilt = sq.set_qoperations_from_var_total(vt)
+        reb = {m: [stacked(W, x) for x in rebuilt.qoperations(m)] for m in ("state", "gate", "povm", "mprocess")}
+        out_of_range = []
+        for k in (-1, n):
+            try:
+                sq.local_info_from_index_var_total(k)
+                out_of_range.append("returned")
+            except IndexError:
+                out_of_range.append("IndexError")
+        return dict(vt=vt, n=n, infos=[(i["mode"], i["index_operations"], i["index_var_local"]) for i in infos], back=back, reb=reb,
+                    out_of_range=out_of_range)
+
+    def post(self, W, cfg, inp, out):
+        np = W.np
+        o = inp["objs"]
+        order = ["state", "gate", "povm", "mprocess"]
+        expect_vt, expect_info = [], []
+        for mode in order:
+            for i, x in enumerate(o[mode]):
+                v = x.to_var()
+                for l in range(v.shape[0]):
+                    expect_vt.append(v[l])
+                    expect_info.append((mode, i, l))
+        n = len(expect_vt)
+        # on-constraint objects for the rebuild clause: generate_from_var(to_var(x)) (C03 round trip) is the reference
+        ref_reb = {m: [stacked(W, x.generate_from_var(x.to_var())) for x in o[m]] for m in order}
+        modes = [i[0] for i in out["infos"]]
+        return [eq("size_var_total==len(var_total)", [out["n"], out["vt"].shape[0]], [n, n], "size_var_total() == len(var_total()) == sum of the operations' variable counts"),
+                eq("var_total-layout", out["vt"], expect_vt, "var_total is states, gates, povms, mprocesses in that order, each operation's to_var() in list order"),
+                eq("local_info/mode", modes, [e[0] for e in expect_info], "mode blocks in the order state, gate, povm, mprocess"),
+                eq("local_info/operation-and-local-index", [list(i[1:]) for i in out["infos"]], [list(e[1:]) for e in expect_info],
+                   "local_info_from_index_var_total(k) names the operation and local index holding var_total[k], for every k"),
+                eq("index-maps-mutually-inverse", out["back"], list(range(n)), "index_var_total_from_local_info(local_info_from_index_var_total(k)) == k for every k"),
+                eq("rebuild-from-var_total", out["reb"], ref_reb, "set_qoperations_from_var_total(var_total()) reproduces every operation"),
+                eq("out-of-range-index-raises", out["out_of_range"], ["IndexError", "IndexError"], "indices -1 and size are rejected")]
